@@ -1,9 +1,9 @@
 """C04 — ticks are serialised, carry one time each, and time never runs backwards."""
 from . import simprop
 
-MODULES = ["TickitModel.Props.C04", "TickitModel.Props.C01"]
+MODULES = ["TickitModel.Props.C04", "TickitModel.Props.C01", "TickitModel.Props.C01Live"]
 THEOREMS = ["one_time_per_tick", "tick_complete", "wake_not_before", "time_monotone", "tick_time_provenance",
-            "within_extent", "finished_iff", "resolved_iff_answered"]
+            "within_extent", "finished_iff", "resolved_iff_answered", "tickRun_exists"]
 ANCHORS = ["src/tickit/core/management/ticker.py", "src/tickit/core/management/schedulers/master.py",
            "src/tickit/core/management/schedulers/nested.py", "src/tickit/core/components/system_component.py"]
 TECHNIQUE = "Lean 4 theorems (a tick finishes only when every member of its extent answered, all dispatches carry the tick time, tick times non-decreasing when no callback is in the past) + trace validation of real runs incl. nested ticks inside outer ticks"
